@@ -684,3 +684,33 @@ Section Whole.
     inversion H1; inversion H2; subst. reflexivity.
   Qed.
 End Whole.
+
+(* ------------------------------------------------------------------ *)
+(* F-C16-a: witness for an even window (closed evaluations only)       *)
+(* ------------------------------------------------------------------ *)
+(* scipy.signal.windows.cosine(6) as integers * 2^56 *)
+Definition cosine6_fixed : list Z :=
+  [18649877681281600; 50952413380206176; 69602291061487776;
+   69602291061487784; 50952413380206184; 18649877681281620].
+Definition isolated9 : list bool := [false; false; false; false; true; false; false; false; false].
+
+Lemma even_window_witness :
+  Nat.even (length cosine6_fixed) = true /\
+  forallb (fun t => (0 <=? t) && (t <? 2 ^ 56)) cosine6_fixed = true /\
+  nth 4 isolated9 false = true /\
+  nth 4 (mute_fixed 56 isolated9 cosine6_fixed) 0 = 2455302976440160.
+Proof. repeat split; vm_compute; reflexivity. Qed.
+
+Lemma pub_even_window_refuted :
+  exists (w : list Z) (flags : list bool) (i : nat),
+    Nat.even (length w) = true /\ forallb (fun t => (0 <=? t) && (t <? 2 ^ 56)) w = true /\
+    nth i flags false = true /\ (i < length flags)%nat /\
+    nth i (mute_fixed 56 flags w) 0 = 2455302976440160 /\
+    nth i (mute_fixed 56 flags w) 0 <> 0.
+Proof.
+  exists cosine6_fixed, isolated9, 4%nat.
+  destruct even_window_witness as (H1 & H2 & H3 & H4).
+  repeat split; try assumption.
+  - unfold isolated9. cbn [length]. lia.
+  - rewrite H4. discriminate.
+Qed.
